@@ -499,7 +499,7 @@ impl G {
 				let n = rng.range(1, 4);
 				self.lines.push(format!("cl batch {n}"));
 				let id = self.next_id;
-				self.next_id += 1;
+				self.next_id += n;
 				self.next_op += 1;
 				vec![Owed::BatchAnswer(id, n)]
 			}
@@ -594,7 +594,7 @@ impl G {
 				let n = rng.range(1, 3);
 				self.lines.push(format!("cl tbatch {} {n}", rng.pick(&TYPED_KINDS)));
 				let id = self.next_id;
-				self.next_id += 1;
+				self.next_id += n;
 				self.next_op += 1;
 				vec![Owed::BatchAnswer(id, n)]
 			}
